@@ -191,6 +191,10 @@ pub struct Ext {
     /// field type of the perturbed addition (menu index), instead of the one the history draws
     #[serde(default)]
     pub force_type: Option<usize>,
+    /// name one addition in five of a `vtypes` type through the alias `fnv_like` (a re-export the
+    /// glue declares in the generated module), the way a user names a type by override
+    #[serde(default)]
+    pub alias_paths: bool,
 }
 
 pub const MARKERS: [&str; 5] =
@@ -307,6 +311,9 @@ pub fn build_ext(h: &RHistory, ext: &Ext) -> Built {
                     // core::ops::function and does not compile; trait objects are outside the types whose
                     // recorded names the properties speak about, so the name is given as a user would, by override.
                     info.name = MENU[idx].rust.to_string();
+                }
+                if ext.alias_paths && ordinal % 5 == 2 && info.name.starts_with("vtypes ::") {
+                    info.name = info.name.replacen("vtypes", "fnv_like", 1);
                 }
                 let is_copy = idx < MARKER_BASE && MENU[idx].copy;
                 let pooled = name.map(|n| NAME_POOL[n as usize % NAME_POOL.len()]).filter(|n| b.get_current_datum_definition_by_name(n).is_none());
@@ -442,6 +449,7 @@ pub fn glue_for(built: &Built, index: usize, fragsel: u8, history: &RHistory) ->
     let mut s = String::new();
     let w = &mut s;
     writeln!(w, "// glue for definition #{} (generated by e2_genstage from the RecordDefinition; no offsets, no oracle)", index).unwrap();
+    writeln!(w, "#[allow(unused_imports)]\npub use vtypes as fnv_like;").unwrap();
     for v in 0..n {
         let fs = fields_of(built, v);
         let last = v + 1 == n;
@@ -790,7 +798,7 @@ pub fn emit(out: &Path, histories: &[(usize, RHistory)], exclude: &[usize]) {
         // a panic of the build-time library on one definition (C12 / C13 report those) must not
         // prevent the other definitions from being examined
         let generated = std::panic::catch_unwind(std::panic::AssertUnwindSafe(|| {
-            let built = build(h);
+            let built = build_ext(h, &Ext { alias_paths: true, ..Ext::default() });
             let code = generate(&built.def, &config_for(h.fragsel));
             let glue = glue_for(&built, *k, h.fragsel, h);
             (code, glue, built.def.variants().count())
